@@ -77,9 +77,12 @@ func (c *Context) SpawnChild(p Producer, name string, opts ...OptFunc) *PID {
 	proc := newProcess(c.engine, options)
 	proc.context.parentCtx = c
 	// register the child before it is started: it could already be stopped
-	// again (and remove itself) by the time SpawnProc returns.
-	c.children.Set(proc.pid.ID, proc.pid)
-	c.engine.SpawnProc(proc)
+	// again (and remove itself) by the time it is spawned. But only once the id
+	// is known to be free: a refused duplicate must not replace the entry of the
+	// child that holds the id.
+	c.engine.Registry.addThen(proc, func() {
+		c.children.Set(proc.pid.ID, proc.pid)
+	})
 
 	return proc.PID()
 }
